@@ -92,6 +92,9 @@ func implC10(line string) (out string) {
 			vmPool.Put(vm)
 		}
 	}()
+	if f[0] == "xl" {
+		return implLiteral(vm, f)
+	}
 	prefix := ""
 	if f[0] == "xc" { // a RegExp built from the RegExp R0 = new RegExp(P, FL)
 		mode := f[1]
@@ -128,8 +131,13 @@ func implC10(line string) (out string) {
 		return v.String()
 	}
 	vm.Set("S", unhex(f[3]))
+	return prefix + runSteps(vm, f[4])
+}
+
+// runSteps applies the steps to the global `re` on the subject `S`
+func runSteps(vm *otto.Otto, steps string) string {
 	var parts []string
-	for _, st := range strings.Split(f[4], ",") {
+	for _, st := range strings.Split(steps, ",") {
 		var src string
 		switch {
 		case st == "e":
@@ -164,7 +172,29 @@ func implC10(line string) (out string) {
 		}
 		parts = append(parts, v.String())
 	}
-	return prefix + strings.Join(parts, ";")
+	return strings.Join(parts, ";")
+}
+
+// implLiteral: the literal route.  function f(){ return /P/F }: steps on f(), a lastIndex and an expando
+// written to it, then a second evaluation of the same literal (identity, state, the same steps) and the
+// literal in a loop body.
+func implLiteral(vm *otto.Otto, f []string) string {
+	lit := "/" + unhex(f[1]) + "/" + unhex(f[2])
+	if _, err := vm.Run("function f(){ return " + lit + " }; var re = f()"); err != nil {
+		return errTok(err)
+	}
+	vm.Set("S", unhex(f[3]))
+	h1 := runSteps(vm, f[4])
+	v, err := vm.Run(`re.lastIndex = 7; re.xp = 1; var r1 = re; re = f(); (re === r1 ? "same" : "diff") + ":" + li(re.lastIndex) + ":" + typeof re.xp`)
+	if err != nil {
+		return "throw-second"
+	}
+	h2 := runSteps(vm, f[4])
+	w, err := vm.Run("(function(){ var a = []; for (var i = 0; i < 2; i++) { a.push(" + lit + ") } return a[0] === a[1] ? 'same' : 'diff' })()")
+	if err != nil {
+		return "throw-loop"
+	}
+	return h1 + "|" + v.String() + "|" + h2 + "|loop:" + w.String()
 }
 
 // errTok names the class of a thrown error: throw:SyntaxError, throw:TypeError, …
@@ -528,6 +558,19 @@ func genC10(c *h.Ctx) {
 			}
 			c.Add("xc "+g.pick([]string{"n", "n", "u", "f", "e", "c"})+" "+hexTok(g.pattern())+" "+hexTok(g.flags())+" "+hexTok(g.subject())+" "+strings.Join(st, ","), "xc:random")
 		}
+	}
+	// the literal route: the same literal evaluated twice (function called twice, loop body) with the object
+	// mutated in between; patterns that the lexer of a literal takes as they are (no `/`, not empty)
+	for i := 0; i < c.N(4000, 150000); i++ {
+		p := g.pattern()
+		if p == "" || strings.ContainsAny(p, "/\n\r\u2028\u2029") {
+			continue
+		}
+		st := make([]string, 1+g.r.Intn(3))
+		for j := range st {
+			st[j] = g.step()
+		}
+		c.Add("xl "+hexTok(p)+" "+hexTok(g.flags())+" "+hexTok(g.subject())+" "+strings.Join(st, ","), "xl")
 	}
 	// region astral_subject: BMP and astral characters before and after the match, every operation
 	{
